@@ -834,12 +834,20 @@ def run(prop, tier, seed, out, timeout, **kw):
     batches = []
     crng = random.Random(4242)  # the committed corpus is seed independent
     batches.append(("c10_corpus", corpus(crng)))
-    n_random = 500 if tier == "quick" else 5000
+    release = driver.PROFILE == "release"
+    n_random = (250 if release else 500) if tier == "quick" else (2500 if release else 5000)
     per = 250
+
+    def fits_profile(d):
+        # without overflow checks the `240u8..` source wraps instead of ending in a panic: only chains that bound it
+        # at once (take / zip with a finite argument) are guaranteed to end there
+        return not release or d["src"] != "range_from_u8" or (d["adapters"] and d["adapters"][0]["m"] in ("take", "zip"))
+
+    batches[0] = (batches[0][0], [d for d in batches[0][1] if fits_profile(d)])
     rnd = []
     while len(rnd) < n_random:
         d = gen_chain(rng)
-        if d is not None:
+        if d is not None and fits_profile(d):
             rnd.append(d)
     for i in range(0, len(rnd), per):
         batches.append(("c10_rand%d" % (i // per), rnd[i:i + per]))
